@@ -74,6 +74,26 @@ func scenarioC06Node(c *Ctx) {
 			e.Close()
 		}
 	}
+	// "never counting one participant twice": a contribution counts for the participant that DELIVERED
+	// it - every other participant posts, validly signed by itself, the proposal / the partial
+	// signature that names the awaited one; the node must refuse it
+	{
+		w := NewWorld(3, 2, 7)
+		me := w.Users[0]
+		round := "round-c06-speaks"
+		report := func(kind string, sig map[string]interface{}, what string, rep map[string]interface{}) {
+			sig["kind"] = "contribution-not-delivered-by-its-participant"
+			c.Fail(Failure{Property: "C06", Kind: sig["kind"].(string), Signature: sig, What: "a signing contribution was taken from somebody else: " + what, Replay: rep})
+		}
+		var cases []HistCase
+		for _, hc := range speaksForCases(w, me, round, w.Honest(round, me), "-c06", report) {
+			if strings.HasPrefix(hc.Items[len(hc.Items)-1].In.Msg.Event, "event_signing") {
+				cases = append(cases, hc)
+			}
+		}
+		runCases(c, cases)
+		c.Notes["speaks_for_cases"] = len(cases)
+	}
 	c.Case("next-proposal", true, fmt.Sprintf("skip c06node %d", runs), fmt.Sprintf("skip c06node %d", runs))
 	c.Notes["next_proposal_runs"] = runs
 }
